@@ -324,7 +324,11 @@ theorem stepRaw_same {s : SeqState} {op : Op} (h : slotsOnly op = true) : Same s
     apply SameR_store; apply SameR_markNonEmpty
     repeat' split
     all_goals first | exact SameR_fail s _ | exact SameR_addCore s _ _ _ _
-  | delay d n atRest => exact SameR_store _ (SameR_delayCore s d n atRest)
+  | delay d n atRest =>
+    refine SameR_store _ ?_
+    rcases delayChecked_cases s d n atRest with hc | ⟨e, hc⟩ <;> rw [hc]
+    · exact SameR_delayCore s d n atRest
+    · exact SameR_fail s e
   | align chs atRest =>
     simp only [stepRaw]
     apply SameR_store
@@ -1303,13 +1307,16 @@ theorem delay_guards {s : SeqState} {d : Int} {n : ChName} {atRest : Bool}
     s.measured = none ∧ ∃ c, s.getChan n = some c := by
   simp only [stepRaw] at hok
   obtain ⟨h1, _, _⟩ := store_ok' hok
-  unfold delayCore at h1
-  by_cases g0 : s.measured.isSome = true
-  · rw [if_pos g0] at h1; simp [fail] at h1
-  · rw [if_neg g0] at h1
-    cases hv : s.validateChannel n false with
-    | error e => rw [hv] at h1; simp [fail] at h1
-    | ok c => exact ⟨measured_none_of g0, c, (validateChannel_modeOf hv).2⟩
+  rcases delayChecked_cases s d n atRest with hc | ⟨e, hc⟩
+  · rw [hc] at h1
+    unfold delayCore at h1
+    by_cases g0 : s.measured.isSome = true
+    · rw [if_pos g0] at h1; simp [fail] at h1
+    · rw [if_neg g0] at h1
+      cases hv : s.validateChannel n false with
+      | error e => rw [hv] at h1; simp [fail] at h1
+      | ok c => exact ⟨measured_none_of g0, c, (validateChannel_modeOf hv).2⟩
+  · rw [hc] at h1; simp [fail] at h1
 
 theorem align_guards {s : SeqState} {chs : List ChName} {atRest : Bool}
     (hok : (stepRaw s (.align chs atRest)).err = none) :
